@@ -1,34 +1,124 @@
 #!/usr/bin/env python3
-"""prints the markdown table of DESIGN.md section 13 from seeded/<id>/meta.json (verdicts of the last matrix run)"""
-import json, glob, os, re
+"""rewrites section 13 of DESIGN.md from seeded/results.json, seeded/<id>/meta.json and the validation summaries
+(verdicts of the last matrix run of tools/run_checks_on_seeds.py)."""
+import json, glob, os, re, collections
 V = os.path.dirname(os.path.dirname(os.path.abspath(__file__)))
-rows = []
+res = json.load(open(os.path.join(V, 'seeded', 'results.json')))
+
+
+def own(v):
+    p = v['property']
+    return 'V' if p in v['caught_by'] else 'U' if p in v['undecided_in'] else 'M'
+
+
+def title_of(m):
+    desc = m.get('description_from_author', '')
+    n = int(m['id'].split('-')[1])
+    k = 1 if n % 2 == 1 else 2
+    heads = re.findall(r'^#+\s*(.*?[Cc]hange\s*%d.*)$' % k, desc, re.M)
+    t = heads[0] if heads else ''
+    t = re.sub(r'`?out/change\d\.diff`?', '', t)
+    t = re.sub(r'^[Cc]hange\s*\d\s*', '', t)
+    t = re.sub(r'^(\.diff)?\s*[-:.(—–]*\s*', '', t).strip(' -:—–()`')
+    return t[:120].replace('|', '/')
+
+
+rows = {1: [], 2: [], 3: []}
 for d in sorted(glob.glob(os.path.join(V, 'seeded', 'C*-*'))):
     mp = os.path.join(d, 'meta.json')
     if not os.path.exists(mp):
         continue
     m = json.load(open(mp))
     sid = m['id']
-    own = m['property']
-    desc = m.get('description_from_author', '')
+    r = res.get(sid)
+    if not r:
+        continue
     n = int(sid.split('-')[1])
-    k = 1 if n % 2 == 1 else 2
-    heads = [h for h in re.findall(r'^#+\s*(.*(?:[Cc]hange|change)\s*%d.*)$' % k, desc, re.M)]
-    title = heads[0] if heads else ''
-    title = re.sub(r'`?out/change\d\.diff`?', '', title)
-    title = re.sub(r'^[Cc]hange\s*\d\s*[-:.(—]*\s*', '', title).strip(' -:—()`')
-    title = re.sub(r'^change\d\.diff\s*[-:—]*\s*', '', title).strip(' -:—')
-    ch = m.get('checks', {})
-    ownv = ch.get(own, {})
-    verdict = 'VIOLATION' if own in m.get('caught_by', []) else ('undecided' if own in m.get('undecided_in', []) else '**missed**')
+    rnd = 1 if n <= 2 else 2 if n <= 4 else 3
+    ownp = m['property']
+    verdict = {'V': 'VIOLATION', 'U': 'undecided', 'M': '**missed**'}[own(r)]
     first = ''
-    if ownv.get('violations'):
-        mm = re.search(r'obligation=(\S+)', ownv['violations'][0])
+    if r['violations'].get(ownp):
+        mm = re.search(r'obligation=(\S+)', r['violations'][ownp][0])
         first = '`%s`' % mm.group(1) if mm else ''
-    elif ownv.get('undecided'):
-        first = ownv['undecided'][0][10:150].replace('|', '/')
-    others = [c for c in m.get('caught_by', []) if c != own]
-    rows.append('| %s | %s | %s | %s | %s |' % (sid, title[:110].replace('|', '/'), verdict, first, ' '.join(others) or '-'))
-print('| change | what it does (author\'s heading) | own property | first failing obligation / reason | also reported under |')
-print('|---|---|---|---|---|')
-print('\n'.join(rows))
+    elif r['undecided'].get(ownp):
+        first = re.sub(r'^UNDECIDED\s*', '', r['undecided'][ownp][0])[:130].replace('|', '/')
+    others = [c for c in r['caught_by'] if c != ownp]
+    rows[rnd].append('| %s | %s | %s | %s | %s |' % (sid, title_of(m), verdict, first, ' '.join(others) or '-'))
+
+seeded = {k: v for k, v in res.items() if v['kind'] == 'seeded'}
+ben = {k: v for k, v in res.items() if v['kind'] == 'benign'}
+tot = collections.Counter(own(v) for v in seeded.values())
+per = {}
+for k, v in seeded.items():
+    n = int(k.split('-')[1])
+    rnd = 1 if n <= 2 else 2 if n <= 4 else 3
+    per.setdefault(rnd, collections.Counter())[own(v)] += 1
+HDR = '| change | what it does (author\'s heading) | own property | first failing obligation / reason for indecision | also reported under |\n|---|---|---|---|---|\n'
+out = []
+out.append('## 13. Seeded changes: what catches what\n')
+out.append("""%d property-breaking changes were written by fresh sub-agents in three rounds (two per claimed property and round; C19 once,
+after it was claimed). Each sub-agent saw only the text of one property, a scratch worktree of `/repo` under `/tmp`, and - from the
+second round on - one-line descriptions of the changes already made for that property, so as not to repeat them; nothing from
+`/verif`. Each change was confirmed here (`tools/validate_seeds.py`, scratch worktree outside `/repo` and `/verif`): the patch
+applies to `/repo` HEAD, the 120-test suite still passes, the author's demonstration passes on the unchanged tree and fails with the
+change (`seeded/validation_summary*.json`; per change `seeded/<id>/{patch.diff,demo.rs,meta.json}`; C17-5/6 by hand because their
+demonstrations need `--cfg sv_parser_verif`). Then EVERY claimed check was run against EVERY change (`tools/run_checks_on_seeds.py`,
+`VERIF_REPO`/`VERIF_OUT` pointing outside `/repo` and `/verif`); nothing is ever committed to `/repo`. `seeded/RESULTS.md` /
+`seeded/results.json` hold the full matrix of the last run. Ids: `Cxx-1/2` first round, `Cxx-3/4` second, `Cxx-5/6` third.
+
+Result of the last run (own property of each change): **%d VIOLATION, %d undecided (exit 2), %d missed** of %d
+(round 1: %s; round 2: %s; round 3: %s). Undecided always means that the changed code left what the verifier front end or an
+annotation anchor accepts (a new helper with `?`, iterator chains with closures, a new struct, a rewritten `quote!` template, a
+changed signature); it is never an alarm. The later rounds are harder on purpose (the obvious sites were taken), which is what
+the falling share of violations shows.
+""" % (len(seeded), tot['V'], tot['U'], tot['M'], len(seeded),
+       ', '.join('%d %s' % (per[1][k], n) for k, n in (('V', 'V'), ('U', 'U'), ('M', 'missed'))),
+       ', '.join('%d %s' % (per[2][k], n) for k, n in (('V', 'V'), ('U', 'U'), ('M', 'missed'))),
+       ', '.join('%d %s' % (per[3][k], n) for k, n in (('V', 'V'), ('U', 'U'), ('M', 'missed')))))
+for rnd in (1, 2, 3):
+    out.append('\n### 13.%d Round %d\n\n' % (rnd, rnd) + HDR + '\n'.join(rows[rnd]) + '\n')
+alarms = {k: v['caught_by'] for k, v in ben.items() if v['caught_by']}
+und = {k: v['undecided_in'] for k, v in ben.items() if v['undecided_in']}
+out.append("""
+### 13.4 Benign patches (the property holds; an alarm here is a false alarm)
+
+%d patches in `seeded/benign/`: nine written here (B1-B9: comments and layout, renamed locals, reordered independent statements
+and `skip_nodes.push` calls, an equivalent expression, a local for a forwarded flag, `.iter()` over the keyword table, reordered
+match arms, an equivalent combinator form) and sixteen behaviour-preserving refactorings written by four fresh sub-agents
+(RA-RD: extract helper, loop into iterator adapter, `if let` into `match`, early return, named locals, generated code built with
+`map`, ..). Last run: **%d alarms**; %d patches leave at least one check undecided:
+
+| patch | undecided checks |
+|---|---|
+%s
+""" % (len(ben), len(alarms), len(und), '\n'.join('| %s | %s |' % (k, ' '.join(v)) for k, v in sorted(und.items())) or '| - | - |'))
+if alarms:
+    out.append('\nALARMS ON BENIGN PATCHES (to be corrected): %s\n' % alarms)
+out.append("""
+### 13.5 What the rounds taught, and what was strengthened because of them
+
+Round 1: unit split (C05-2), unit display (C08-2), `C17.direct-state-access` (C17-2), `okfrom` (C20-1), `Chars::count` spec and
+pt under C06 (C06-2), soft anchors and quarantine (C04-2, C18-2, B3), multiset skip contract (B4), gvc.pptotal (C06-1).
+Round 2: unit kwstack (C13-4 de-duplicated version stack; C13-2 binary search over unsorted tables through the per-run
+sortedness facts), gvc.entries under C15 (C15-3), gvc.stateless under C20 (C20-4), `skip`/`into_iter` on the iterator shim
+(C16-3), rtmu under C18 (C18-4), bounded stand-ins c06bound / c05bound (C06-3, C06-4, C05-4), per-property attribution (the
+cross-property alarms of this round), K10 (found by the C17 sub-agent's capacity sweep on the UNCHANGED tree).
+Round 3: `RECURSIVE_LIMIT == 64` pinned (C09-6), access to the version stack from a new production as a C13 obligation (C13-6),
+no nom streaming parser (C15-5), string tests in `is_predefined_text_macro` (C04-5), `canonicalize()?` through
+`From<io::Error>` (C08-5), `Chars::count` in `into_locate` (C01-5), exact K3/K4 exemption in c06bound (C06-6), contract-true
+iterator adapters + R-closurepat (C05-5), the include arm's `ignore_include` obligation and one call-site copy per property
+set (C10-3 had become a miss through masking), per-branch knowledge in the lexer evaluation (C13-5), frozen stretches of
+`preprocess_str` (C06-5 was a miss: now undecided), the R-tls premise (C08-6), C01 clause on `parse_*_pp` (C01-6 was a miss).
+Benign round: two false alarms corrected, R-inline, tolerant panic inventory (section 10.5).
+Still undecided and why: helpers with `?` or a changed signature (C01-6, C15-6, C03-5), iterator chains (`rev().find_map`,
+`map().collect()`, `retain`: C03-6, C20-5, C11-5), new data structures or API of std's B-tree (C08-6, C03-4), a new arm with a new
+method (C04-6), annotation anchors that no longer fit the restructured code (C05-6, C16-6, C16-2, C18-6), a deleted state variable
+(C10-5), a statement in a frozen stretch (C06-5).
+""")
+text = ''.join(out)
+p = os.path.join(V, 'DESIGN.md')
+t = open(p).read()
+i = t.index('## 13. Seeded changes: what catches what')
+open(p, 'w').write(t[:i] + text)
+print('section 13 rewritten: %d seeded (%s), %d benign, %d alarms' % (len(seeded), dict(tot), len(ben), len(alarms)))
